@@ -1,6 +1,6 @@
 (* C43: the theorems about encrypted key containers, under stated assumptions on AES-256-GCM and Argon2id, and
    the theorems about plain key PEM blocks (no assumptions). *)
-From Coq Require Import List NArith Bool Lia.
+From Coq Require Import List NArith Bool Lia PeanoNat.
 Import ListNotations.
 From NV Require Import lib.Bytes lib.Proto lib.Corr lib.KeyCrypt_lib gen.Consts_KeyCrypt model.KeyCrypt
   proofs.KeyCrypt_codec proofs.KeyCrypt_consts.
